@@ -123,12 +123,7 @@ def replay(prop, behs, tag, cont=False, timeout=3000):
     binq = vlib.go_build("qbft")
     inp = os.path.join(wd, "%s.ndjson" % tag)
     outp = os.path.join(wd, "%s_result.json" % tag)
-    vlib.write_ndjson(inp, behs)
-    args = ["-in", inp, "-out", outp]
-    if cont:
-        args.append("-cont")
-    _, wall = vlib.run_driver(binq, args, timeout=timeout)
-    res = json.load(open(outp))
+    res, wall = vlib.run_driver_sharded(binq, behs, inp, outp, extra=["-cont"] if cont else [], timeout=timeout)
     log("[%s] replayed %d behaviours / %d steps (%s) on real controllers in %.0fs: %d monitor trips, %d divergences" %
         (prop, res["behaviours"], res["steps"], tag, wall, res["counters"].get("violations", 0),
          res["counters"].get("divergences", 0)))
